@@ -222,5 +222,4 @@ theorem chain_roundtrip (fuel pad : Nat) (as : List Stmt) (x : Expr)
   simp only [List.dropWhile]
   simp [eof]
 
-#print axioms chain_roundtrip
 end P.Peg
